@@ -238,6 +238,7 @@ struct Connecting {
     token: ConnectToken,
     start: Instant,
     seq_nr: SeqNr,
+    conn_id: ConnectionId,
     requester: ConnectRequest,
 }
 
@@ -265,11 +266,11 @@ impl ConnectingPerAddr {
         false
     }
 
-    // TODO: use connection ID instead of sequence number. Or even both.
-    fn pop(&mut self, s: SeqNr) -> Option<Connecting> {
+    // A SYN-ACK must match both the sequence number and the connection ID of our SYN.
+    fn pop(&mut self, s: SeqNr, conn_id: ConnectionId) -> Option<Connecting> {
         for slot in self.slots.iter_mut() {
             if let Some(c) = slot {
-                if c.seq_nr == s {
+                if c.seq_nr == s && c.conn_id == conn_id {
                     self.len -= 1;
                     return slot.take();
                 }
@@ -487,6 +488,7 @@ impl<T: Transport, E: UtpEnvironment> Dispatcher<T, E> {
                 let c = Connecting {
                     token,
                     seq_nr: header.seq_nr,
+                    conn_id,
                     requester: sender,
                     start: self.env.now(),
                 };
@@ -540,7 +542,10 @@ impl<T: Transport, E: UtpEnvironment> Dispatcher<T, E> {
             }
         };
 
-        let conn = if let Some(conn) = occ.get_mut().pop(msg.header.ack_nr) {
+        let conn = if let Some(conn) = occ
+            .get_mut()
+            .pop(msg.header.ack_nr, msg.header.connection_id)
+        {
             if occ.get_mut().is_empty() {
                 occ.remove();
             }
@@ -548,7 +553,7 @@ impl<T: Transport, E: UtpEnvironment> Dispatcher<T, E> {
         } else {
             debug!(
                 ?msg,
-                "dropping packet. we are connecting to this addr, but ack_nr doens't match"
+                "dropping packet. we are connecting to this addr, but ack_nr or connection id doesn't match"
             );
             return Ok(());
         };
